@@ -105,6 +105,9 @@ type analyzer struct {
 	knownLeaks     map[string]bool
 	pub            *pubState
 	onceUsed       map[int]bool
+	chanSites      map[ssa.Instruction][]*chanSite
+	chanAll        []*chanSite
+	chanClosed     map[string]bool
 	traceMemo      map[*ssa.Function][][]pubEvent
 	traceBusy      map[*ssa.Function]bool
 	traceRaw       map[*ssa.Function][][]pubEvent
@@ -479,8 +482,12 @@ func (a *analyzer) prepare() {
 		a.callees[site] = out
 	}
 	a.preparePub()
+	a.prepareChans()
 	interesting := map[*ssa.Function]bool{}
 	for fn := range ssautil.AllFunctions(a.prog) {
+		if a.chanInteresting(fn) {
+			interesting[fn] = true
+		}
 		for _, b := range fn.Blocks {
 			for _, ins := range b.Instrs {
 				switch x := ins.(type) {
@@ -806,6 +813,7 @@ func dedupStates(sts []state) []state {
 }
 
 func (a *analyzer) step(fn *ssa.Function, ins ssa.Instruction, cur []state, virt bool, chain *chainNode, env bindEnv) []state {
+	a.chanVisit(ins, cur)
 	switch x := ins.(type) {
 	case *ssa.Call:
 		return a.doCall(fn, x, cur, virt, chain, "call", env)
